@@ -117,6 +117,24 @@ def stratified(rng, behs, n):
     return out
 
 
+def two_spellings(b):
+    """A recipient accepted in one spelling, later (another transaction: the alphabet allows one spelling per
+    transaction) accepted in the other one, and a DATA with a good message after that."""
+    seen, last, stage = {}, None, 0
+    for h in b["hist"]:
+        if h.get("a") == "Cmd":
+            last = h
+            if stage == 1 and h["v"] == "DATA" and h["arg"] == "ok":
+                return True
+        elif h.get("a") == "Reply" and last is not None and last["v"] == "RCPT" and h.get("cls") == 2 \
+                and last["arg"] in ("ok", "up"):
+            prev = seen.get(last["r"])
+            if prev is not None and prev != last["arg"]:
+                stage = 1
+            seen[last["r"]] = last["arg"]
+    return False
+
+
 def nontrivial(b):
     for s in b["hist"]:
         if s.get("a") == "Tgt" and (s.get("res") not in ("ok", "") or
@@ -538,7 +556,12 @@ def run(ctx, replay):
             raise vlib.Infra("spelling-focused behaviour generation failed: %s %s" % (gsp["invariant"], gsp["error"]))
         sp_b = behaviours_from(gsp)
         ctx.cov["spelling_behaviours"] = len(sp_b)
-        behs += stratified(ctx.rng, sp_b, 10000 if thorough else 2500)
+        # every history that names one mailbox in two spellings across transactions and then reaches DATA
+        # is replayed (capped); the rest of the corner is sampled
+        sp_hit = [b for b in sp_b if two_spellings(b)]
+        ctx.cov["two_spelling_behaviours"] = len(sp_hit)
+        behs += vlib.sample(ctx.rng, sp_hit, 6000 if thorough else 1500)
+        behs += stratified(ctx.rng, [b for b in sp_b if not two_spellings(b)], 6000 if thorough else 1500)
         behs += vlib.sample(ctx.rng, crashy, 40 if thorough else 3)
         behs += vlib.sample(ctx.rng, [b for b in fb if not b["crash"]], 400 if thorough else 40)
         for gi in gs:
